@@ -9,7 +9,7 @@ use std::{
     cell::RefCell,
     collections::BTreeSet,
     fs,
-    io::{self, BufWriter},
+    io::{self, BufWriter, Write},
     path::Path,
     sync::Arc,
     time,
@@ -489,6 +489,11 @@ impl Writer {
                         &mut merge_datafile_writer,
                     )?
                 };
+
+                // Make sure the copied entry has reached the merge data file before the KeyDir
+                // and the hint file refer to it, so that neither a concurrent reader nor a
+                // recovery after a crash is pointed at bytes that are not in the file yet.
+                merge_datafile_writer.flush()?;
 
                 // update keydir so it points to the merge data file
                 keydir_entry.fileid = merge_fileid;
